@@ -1094,6 +1094,7 @@ package iavl
 //@   requires ndb != nil && ndb.db != nil
 //@   macro plain = old(ndb.latestVersion) > 0 && old(ndb.latestVersion) < 9223372036854775807 && old(ndb.legacyLatestVersion) == 0 - 1 && fromVersion > 0
 //@   ensures [above-latest] plain && old(ndb.latestVersion) < fromVersion ==> err == nil && ndb.latestVersion == old(ndb.latestVersion)
+//@   callsite nodeDB).getLatestVersion [latest-discovered-not-assumed] arg0 == ndb
 //@   callsite FastPrefixFormatter).KeyInt64@1 [range-from] plain ==> arg1 == fromVersion
 //@   callsite FastPrefixFormatter).KeyInt64@2 [range-to] plain ==> arg1 == old(ndb.latestVersion) + 1
 //@   callsite nodeDB).resetLatestVersion [new-latest] plain ==> arg1 == fromVersion - 1
